@@ -124,6 +124,22 @@ impl RxCtrState {
     }
 }
 
+/// Verification hooks: raw access to the receive window state.
+#[cfg(rs_matter_verif)]
+impl RxCtrState {
+    pub fn verif_from_raw(synced: bool, max_ctr: u32, ctr_bitmap: u16) -> Self {
+        Self {
+            synced,
+            max_ctr,
+            ctr_bitmap,
+        }
+    }
+
+    pub fn verif_raw(&self) -> (bool, u32, u16) {
+        (self.synced, self.max_ctr, self.ctr_bitmap)
+    }
+}
+
 /// Max number of unique group message senders tracked for replay protection.
 #[cfg(feature = "groups")]
 pub const MAX_GROUP_CTR_ENTRIES: usize = 16;
@@ -201,6 +217,24 @@ impl GroupCtrStore {
         }
 
         true
+    }
+}
+
+/// Verification hooks: snapshot of the group counter store.
+#[cfg(all(rs_matter_verif, feature = "groups"))]
+impl GroupCtrStore {
+    /// Calls `f(fab_idx, src_nodeid, max_ctr, ctr_bitmap, last_used)` per entry, in table order; returns the clock.
+    pub fn verif_for_each(&self, mut f: impl FnMut(u8, u64, u32, u16, u32)) -> u32 {
+        for e in &self.entries {
+            f(
+                e.fab_idx,
+                e.src_nodeid,
+                e.rx_ctr.max_ctr,
+                e.rx_ctr.ctr_bitmap,
+                e.last_used,
+            );
+        }
+        self.clock
     }
 }
 
